@@ -439,3 +439,46 @@ Section Multi.
 
   Definition mrun (tabs : list ftable) (steps : list (nat * query)) : list hobs := map (mstep tabs) steps.
 End Multi.
+
+(* ---- value ranges over an abstract value type ---------------------------------------
+   rows[lo:hi:'col'] for a column of any dtype (signed/unsigned integers of any
+   width, floats of any width with NaN and infinities, bool, object columns of
+   numbers).  What the unchanged code computes (read from _get_row_indices):
+       both bounds None          -> slice(None)            (every row)
+       only lo                   -> np.where(col >= lo)[0]
+       only hi                   -> np.where(col <= hi)[0]
+       both                      -> np.where((col >= lo) & (col <= hi))[0]
+   i.e. the rows whose value v satisfies lo <= v <= hi under numpy's comparison,
+   in table order.  The comparison is the oracle [le] (numpy's <= on a cell and a
+   bound: exact on numbers of mixed types, false as soon as a NaN is involved);
+   nothing is assumed about it — in particular not that the column is sorted. *)
+Section AbstractRange.
+  Variable V : Type.
+  Variable le : V -> V -> bool.
+
+  Definition range_indices (lo hi : option V) (col : list V) : idx :=
+    match lo, hi with
+    | None, None => ISlice None None
+    | Some a, None => IArr (np_where (fun v => le a v) col)
+    | None, Some b => IArr (np_where (fun v => le v b) col)
+    | Some a, Some b => IArr (np_where (fun v => le a v && le v b) col)
+    end.
+
+  (* rows.indices[lo:hi:'col'] *)
+  Definition range_view (lo hi : option V) (col : list V) : list Z :=
+    match range_indices lo hi col with
+    | ISlice a b => map Z.of_nat (slice_range (length col) a b)
+    | IArr l => l
+    end.
+
+  (* the specification: a scan *)
+  Definition in_range (lo hi : option V) (v : V) : bool :=
+    match lo with None => true | Some a => le a v end && match hi with None => true | Some b => le v b end.
+
+  Definition range_spec (lo hi : option V) (col : list V) : list Z :=
+    zpos_filter (length col) (fun i => match nth_error col i with Some v => in_range lo hi v | None => false end).
+End AbstractRange.
+
+(* the instance used by the case files: values ranked by the harness, None = NaN *)
+Definition rank_le (a b : option Z) : bool :=
+  match a, b with Some x, Some y => (x <=? y)%Z | _, _ => false end.
